@@ -6,6 +6,7 @@ use crate::harness::{hash_f64s, hash_str, H};
 use crate::json::J;
 use crate::rng::{mix, Rng};
 use crate::util::*;
+use crate::catalog::HelmertSpec;
 use geodesy::authoring::*;
 
 /// Non-grid operators the catalogue can generate
@@ -113,6 +114,17 @@ pub fn run(h: &H) {
     let npts = if h.quick() { 120 } else { 400 };
     for idx in h.cases(n) {
         let mut rng = h.rng(idx);
+        match idx % 10 {
+            8 => {
+                h.guard(idx, "datum shift and projection in one pipeline", || composite(h, idx, &mut rng, npts));
+                continue;
+            }
+            9 => {
+                h.guard(idx, "grid based shifts inside grid coverage", || grid_round_trip(h, idx, &mut rng));
+                continue;
+            }
+            _ => {}
+        }
         let name = NAMES[(idx as usize + h.cfg.shard as usize * 7) % NAMES.len()];
         let Some(inst) = catalog::instance(name, &mut rng) else {
             continue;
@@ -279,5 +291,181 @@ fn one_instance(h: &H, idx: u64, inst: &Inst, rng: &mut Rng, npts: usize) {
                 .set("first_input", J::coords(&xs[0]))
                 .set("points", npts),
         );
+    }
+}
+
+/// Whole pipelines: geographic -> cartesian -> exact Helmert -> geographic on another ellipsoid ->
+/// a projection of the catalogue; forward then inverse, tolerance = the projection's class plus
+/// the micrometre of the cartesian round trips
+fn composite(h: &H, idx: u64, rng: &mut Rng, npts: usize) {
+    let pname = *rng.pick(&["merc", "tmerc", "utm", "lcc", "laea", "somerc", "omerc", "btmerc"]);
+    let Some(p) = catalog::instance(pname, rng) else { return };
+    // two terrestrial ellipsoids: with a unit sphere (or a body of another size) at one end the
+    // middle of the pipeline is a point hundreds of kilometres off the other ellipsoid
+    if !(6.3e6..6.4e6).contains(&p.ell.a) {
+        return;
+    }
+    let e1 = rng.pick(&["GRS80", "intl", "bessel", "clrk66", "WGS84", "krass", "airy", "clrk80"]).to_string();
+    // a datum shift of realistic size, with the exact rotation matrix (so that its inverse is exact)
+    let mut spec = HelmertSpec::random(rng, "p7_approx");
+    spec.exact = true;
+    let hdef = spec.def();
+    let def = format!("cart ellps={e1} | {hdef} | cart inv ellps={} | {}", p.ell_name, p.def);
+    let mut ctx = Minimal::new();
+    let macro_route = rng.chance(0.3);
+    let op = if macro_route {
+        ctx.register_resource("rt:whole", &def);
+        ctx.op("noop | rt:whole")
+    } else {
+        ctx.op(&def)
+    };
+    let op = match op {
+        Ok(op) => op,
+        Err(e) => {
+            h.violation(idx, "C01/pipeline/instantiation-failed", J::obj().set("definition", &def).set("error", format!("{e}")));
+            return;
+        }
+    };
+    h.class(&format!("pipeline/shift-then-{pname}{}", if macro_route { "/macro" } else { "" }));
+    h.distinct(mix(hash_str(&def), idx));
+    // `cart inv` delivers longitudes in (-pi, pi]: only such input can come back as it was
+    let xs: Vec<[f64; 4]> = (0..npts.min(100))
+        .map(|_| {
+            let mut x = p.sample(rng);
+            x[2] = rng.range(-100.0, 5000.0);
+            x
+        })
+        // (and a kilometre of datum shift must not carry the point across the date line or
+        // the pole, where the longitude jumps)
+        .filter(|x| x[0].abs() < std::f64::consts::PI - 0.05 && x[1].abs() < 88.0_f64.to_radians())
+        .collect();
+    let mut ys: Vec<Coor4D> = xs.iter().map(|x| Coor4D(*x)).collect();
+    apply_set(&ctx, op, D::F, &mut ys);
+    let mut back = ys.clone();
+    apply_set(&ctx, op, D::I, &mut back);
+    // the first ellipsoid measures the ground
+    let ell1 = {
+        let e = Ellipsoid::named(&e1).unwrap_or_default();
+        crate::geo::Ell { a: e.a(), f: e.f() }
+    };
+    let tol = p.tol_in + 5.0e-6;
+    for k in 0..xs.len() {
+        h.eval(1);
+        if any_nan(&ys[k].0) {
+            // the shifted point left the projection's domain: nothing to undo
+            continue;
+        }
+        let r = ell1.ground(xs[k][0], xs[k][1], back[k].0[0], back[k].0[1]) + (xs[k][2] - back[k].0[2]).abs();
+        h.max("pipeline/fwd-inv", if r.is_finite() { r / tol } else { f64::MAX }, || format!("{def} at {}", fmt4(&xs[k])));
+        if !(r <= tol) || canon(xs[k][3]) != canon(back[k].0[3]) {
+            h.violation(
+                idx,
+                &format!("C01/pipeline/shift-then-{pname}/fwd-inv"),
+                J::obj().set("definition", &def).set("input", J::bits(&xs[k])).set("forward", J::bits(&ys[k].0)).set("back", J::bits(&back[k].0)).set("residual", r).set("tolerance", tol),
+            );
+            return;
+        }
+    }
+}
+
+/// Grid based shifts inside the coverage of harness-built grids, served through `GridCtx`:
+/// geoid heights (exact to rounding), datum shifts (the inverse iterates to 1e-12 rad) and
+/// deformations (one-step lookup: exact up to the change of the velocity over the displacement)
+fn grid_round_trip(h: &H, idx: u64, rng: &mut Rng) {
+    use crate::gridgen::{GridCtx, GridSpec};
+    use std::sync::Arc;
+    let bands = 1 + rng.below(3);
+    let spec = loop {
+        let s = GridSpec::random(rng, bands, false);
+        if s.lon_e < 175.0 && s.lon_w > -175.0 && s.lat_n < 85.0 && s.lat_s > -85.0 {
+            break s;
+        }
+    };
+    let text = spec.gravsoft(rng);
+    let Ok(grid) = BaseGrid::gravsoft(text.as_bytes()) else { return };
+    let m = spec.model();
+    let mut ctx = GridCtx::new();
+    let (gname, def, dt) = match bands {
+        1 => ("g.geoid", "gridshift grids=g.geoid".to_string(), 0.0),
+        2 => ("g.datum", "gridshift grids=g.datum".to_string(), 0.0),
+        _ => {
+            let dt = rng.short_decimal(1.0, 30.0, 1);
+            ("g.deformation", format!("deformation grids=g.deformation dt={}", num(dt)), dt)
+        }
+    };
+    ctx.grids.insert(gname.into(), Arc::new(grid));
+    let Ok(op) = ctx.op(&def) else {
+        h.violation(idx, "C01/grid/instantiation-failed", J::obj().set("definition", &def));
+        return;
+    };
+    h.class(&format!("grid/{}-band", bands));
+    h.distinct(mix(hash_str(&text), idx));
+    let e = Ellipsoid::default();
+    let g80 = crate::geo::GRS80;
+    for _ in 0..40 {
+        // well inside: the shift must not carry the point (or the iteration) out of the grid
+        let lon = m.lon_w + rng.range(0.2, 0.8) * (m.lon_e - m.lon_w);
+        let lat = m.lat_s + rng.range(0.2, 0.8) * (m.lat_n - m.lat_s);
+        let hgt = rng.range(-50.0, 3000.0);
+        let Some(w) = m.at(lon, lat, 0.0) else { continue };
+        let x: [f64; 4] = if bands == 3 {
+            let c = e.cartesian(&Coor4D([lon, lat, hgt, 0.0]));
+            [c[0], c[1], c[2], 2015.5]
+        } else {
+            [lon, lat, hgt, 2015.5]
+        };
+        // the size of the shift, and how much it changes over its own length
+        let (tol, skip) = match bands {
+            1 => (4.0 * crate::geo::ulp(hgt.abs() + w[0].abs() + 1.0), false),
+            2 => {
+                let reach = 3.0 * (w[0].abs() + w[1].abs());
+                let inside = m.contains(lon - reach, lat - reach, 0.0) && m.contains(lon + reach, lat + reach, 0.0);
+                (1.0e-5, !inside)
+            }
+            _ => {
+                let (mlat, mlon) = (m.dlat * g80.m_rad(lat), m.dlon * g80.n_rad(lat) * lat.cos());
+                let cell = mlat.min(mlon);
+                let mut spread = 0.0f64;
+                for b in 0..3 {
+                    let c = m.corners(lon, lat, b);
+                    let (lo, hi) = c.iter().fold((f64::MAX, f64::MIN), |a, v| (a.0.min(*v), a.1.max(*v)));
+                    spread = spread.max(hi - lo);
+                }
+                let d = dt * (w[0].abs() + w[1].abs() + w[2].abs());
+                let g = dt * 3.0 * spread / cell;
+                (1.0e-6 + 2.0 * d * g, d > 0.2 * cell)
+            }
+        };
+        if skip {
+            continue;
+        }
+        for (first, second) in [(D::F, D::I), (D::I, D::F)] {
+            let (y, c1) = apply1(&ctx, op, first, x);
+            let (b, c2) = apply1(&ctx, op, second, y);
+            h.eval(2);
+            let r = match bands {
+                1 => (b[2] - x[2]).abs() + if b[0] == x[0] && b[1] == x[1] { 0.0 } else { f64::INFINITY },
+                2 => g80.ground(x[0], x[1], b[0], b[1]) + if b[2] == x[2] { 0.0 } else { f64::INFINITY },
+                _ => ((b[0] - x[0]).powi(2) + (b[1] - x[1]).powi(2) + (b[2] - x[2]).powi(2)).sqrt(),
+            };
+            let label = if first == D::F { "fwd-inv" } else { "inv-fwd" };
+            h.max(&format!("grid/{bands}-band/{label}"), if r.is_finite() { r / tol } else { f64::MAX }, || format!("{def} at {}", fmt4(&x)));
+            if c1 != 1 || c2 != 1 || !(r <= tol) || canon(b[3]) != canon(x[3]) {
+                h.violation(
+                    idx,
+                    &format!("C01/grid/{bands}-band/{label}"),
+                    J::obj()
+                        .set("definition", &def)
+                        .set("grid_lat_s_lat_n_lon_w_lon_e_rad", J::coords(&[m.lat_s, m.lat_n, m.lon_w, m.lon_e]))
+                        .set("input", J::bits(&x))
+                        .set("there", J::bits(&y))
+                        .set("back", J::bits(&b))
+                        .set("counts", J::coords(&[c1 as f64, c2 as f64]))
+                        .set("residual", r)
+                        .set("tolerance", tol),
+                );
+                return;
+            }
+        }
     }
 }
